@@ -82,6 +82,7 @@ func genC02(seed uint64, run int, tier string) *Plan {
 	g := newGen(r)
 	g.failing = 45
 	g.wide = 15
+	g.etxn = 10
 	g.colls = []string{"c0"}
 	g.ids = 3 + r.IntN(3)
 	p := &Plan{Prop: "C02", Seed: seed, Run: run, Cfg: seqCfg(r)}
